@@ -1,7 +1,7 @@
 import Goat.Model.Peephole
 /-!
 # Model of the compiler's control-flow schemes (compiler.go cases "if", "for", "break", "continue",
-"block") over abstract leaves
+"range", "block") over abstract leaves
 
 A *leaf* is the already compiled code of a simple statement (`act n`) or of a condition (`cnd c`):
 a straight-line instruction list given to the model from outside (the correspondence harness
@@ -25,6 +25,7 @@ inductive Stmt where
   | swc (c : Nat) (a : Stmt) (rest : Stmt)          -- switch { case c: a; <rest> }   (rest: further cases / default)
   | swd (d : Stmt)                                  -- … default: d }   (empty d: no default clause)
   | ret (n : Nat)                                   -- return e…  (leaf n evaluates the results)
+  | rng (r kv : Int) (it : Nat) (body : Stmt)       -- for k, v := range <leaf it> { body }  (r: hidden iterator slot, kv: joined key/value slots)
   deriving Repr
 
 /-- the leaf codes: actions and conditions -/
@@ -78,6 +79,10 @@ def compile (L : Leaves) : Stmt → List Instr
   | .brk => [{ op := "BREAK" }]
   | .cont => [{ op := "CONTINUE" }]
   | .ret n => L.act n ++ [{ op := "RETURN" }]
+  | .rng r kv it b =>
+    let B := compile L b
+    L.act it ++ [{ op := "RANGE", a := r, b := B.length }] ++ rw 1 0 B ++
+      [{ op := "ITER", a := r, b := kv, c := -((B.length : Int) + 1) }]
   | .swd d => rwB 0 (compile L d)
   | .swc c a r =>
     let A := compile L a
